@@ -60,6 +60,13 @@ def generate(rng, tier):
         elif kind == 'boot':
             c.update(boot=rng.choice(['both', 'pattern', 'rdm']), N=rng.randint(4, 8), boot_nc=rng.random() < 0.6)
             c['kind'] = 'boot:' + c['boot']
+            if c['boot'] in ('both', 'rdm') and nr >= 2 and rng.random() < 0.5:
+                # the data carry an 'index' descriptor that is not the row position (as after indexing / subsample of a larger
+                # stack); the RDM groups are given by a second descriptor (seeded change C04-m5)
+                perm = list(range(nr))
+                while perm == list(range(nr)):
+                    rng.shuffle(perm)
+                c['relabel'] = perm
         elif kind in ('cv', 'icv'):
             c.update(k_pattern=rng.choice([1, 2, 2]), k_rdm=rng.choice([1, 2]), sets=rng.choice(['k_fold', 'k_fold', 'loo_pattern', 'loo_rdm']))
             if kind == 'cv' and c['method'] == 'corr':
@@ -115,7 +122,11 @@ def nontrivial(c):
 def build(c):
     from rsatoolbox.rdm import RDMs
     from rsatoolbox import model as M
-    D = RDMs(np.array(c['data8'], float) / 8)
+    if c.get('relabel'):
+        D = RDMs(np.array(c['data8'], float) / 8,
+                 rdm_descriptors={'index': list(c['relabel']), 'g': list(range(len(c['data8'])))})
+    else:
+        D = RDMs(np.array(c['data8'], float) / 8)
     models, thetas = [], []
     for i, m in enumerate(c['models']):
         arr = np.array(m['basis8'], float) / 8
@@ -206,18 +217,20 @@ def run(c):
     elif call == 'boot':
         f = {'both': EV.eval_bootstrap, 'pattern': EV.eval_bootstrap_pattern, 'rdm': EV.eval_bootstrap_rdm}[c['boot']]
         rec = []
+        rd = 'g' if c.get('relabel') else 'index'
+        kwr = dict(rdm_descriptor=rd) if c.get('relabel') else {}
         with patched(EV, ['bootstrap_sample', 'bootstrap_sample_pattern', 'bootstrap_sample_rdm'], rec):
-            res = f(models, D, theta=thetas, method=c['method'], N=c['N'], boot_noise_ceil=c['boot_nc'])
+            res = f(models, D, theta=thetas, method=c['method'], N=c['N'], boot_noise_ceil=c['boot_nc'], **kwr)
         o = res_summary(res)
         samples = []
         for n, a, k, out in rec:
             s = out[0]
             pi = out[-1] if n != 'bootstrap_sample_rdm' else np.arange(D.n_cond)
-            samples.append(dict(rdm_pos=[int(x) for x in s.rdm_descriptors['index']], sel=[int(x) for x in s.pattern_descriptors['index']],
+            samples.append(dict(rdm_pos=[int(x) for x in s.rdm_descriptors[rd]], sel=[int(x) for x in s.pattern_descriptors['index']],
                                 drawn=[int(x) for x in pi], vecs=vecs(s)))
         o['samples'] = samples
         np.random.seed(c['seed'])
-        res2 = f(models, D, theta=thetas, method=c['method'], N=c['N'], boot_noise_ceil=c['boot_nc'])
+        res2 = f(models, D, theta=thetas, method=c['method'], N=c['N'], boot_noise_ceil=c['boot_nc'], **kwr)
         o['rerun_equal'] = bool(np.array_equal(res.evaluations, res2.evaluations, equal_nan=True)
                                 and np.array_equal(res.noise_ceiling, res2.noise_ceiling, equal_nan=True)
                                 and np.array_equal(res.variances, res2.variances, equal_nan=True))
@@ -605,3 +618,49 @@ def run(c):                      # noqa: F811
         _cache04.clear()
         _cache04[key] = _run04(c)
     return _cache04[key]
+
+
+# -------------------------------------------------------------------------------- supporting tests
+def support(rng, tier):
+    """a rerun with the same random seed reproduces the result exactly -- also with the models' own default fitters (BFGS with
+    random starting points), which the Coq model does not predict (C08): compared bit for bit (seeded change C04-m6)"""
+    import warnings
+    warnings.simplefilter('ignore')
+    import rsatoolbox.inference.evaluate as EV
+    from rsatoolbox.rdm import RDMs
+    from rsatoolbox import model as M
+    from rsatoolbox.inference import sets_k_fold
+    out = []
+    n = 4 if tier == 'quick' else 40
+    for t in range(n):
+        nc = rng.choice([6, 7])
+        P = nc * (nc - 1) // 2
+        nr = rng.randint(3, 5)
+        D = RDMs(np.array([[rng.randint(1, 40) for _ in range(P)] for _ in range(nr)], float) / 8)
+        basis = np.array([[rng.randint(1, 40) for _ in range(P)] for _ in range(rng.randint(2, 3))], float) / 8
+        models = [M.ModelWeighted('w', basis), M.ModelInterpolate('i', basis), M.ModelFixed('f', basis[0])]
+        method = rng.choice(['cosine', 'corr'])
+        routine = ['crossval', 'bootstrap_crossval', 'eval_dual_bootstrap', 'eval_dual_bootstrap_random'][t % 4]
+        seed = rng.randrange(2 ** 31 - 1)
+
+        def once():
+            np.random.seed(seed)
+            if routine == 'crossval':
+                tr, te, ce = sets_k_fold(D, k_pattern=2, k_rdm=1, random=True)
+                return EV.crossval(models, D, tr, te, ce, method=method)
+            if routine == 'bootstrap_crossval':
+                return EV.bootstrap_crossval(models, D, method=method, k_pattern=2, k_rdm=1, N=3, n_cv=2)
+            if routine == 'eval_dual_bootstrap':
+                return EV.eval_dual_bootstrap(models, D, method=method, k_pattern=2, k_rdm=1, N=3, n_cv=2)
+            return EV.eval_dual_bootstrap_random(models, D, method='cosine', n_pattern=3, n_rdm=1, N=3, n_cv=2)
+        try:
+            a, b = once(), once()
+            same = (np.array_equal(a.evaluations, b.evaluations, equal_nan=True)
+                    and np.array_equal(np.asarray(a.noise_ceiling, float), np.asarray(b.noise_ceiling, float), equal_nan=True)
+                    and (a.variances is None or np.array_equal(a.variances, b.variances, equal_nan=True)))
+            detail = dict(routine=routine, method=method, numpy_seed=seed, data=D.dissimilarities.tolist(), basis=basis.tolist(),
+                          max_abs_difference=float(np.nanmax(np.abs(np.asarray(a.evaluations) - np.asarray(b.evaluations)))))
+        except Exception as e:
+            same, detail = False, dict(routine=routine, method=method, numpy_seed=seed, raised=f'{type(e).__name__}: {e}')
+        out.append((f'rerun_with_same_seed_default_fitters:{routine}', same, detail))
+    return out
